@@ -61,7 +61,7 @@ class C09(Prop):
     partial = ["equality/hash of differently written markers is proved at character level (eq_hash_layout_independent, "
                "extra_spelling_layout_independent) for any two layouts of one formula that differ in white space, quote style, "
                "variable spelling, extra-name spelling and redundant parentheses (outer, around single comparisons, doubled); "
-               "literals with backslash/CR/LF/NUL/surrogates and texts ending in a newline are outside these theorems",
+               "literals with backslash/CR/LF/NUL/surrogates are outside these theorems",
                "the character-level round trip (str_roundtrip_char, marker_roundtrip_char) assumes canonical comparisons: "
                "variables among the twelve canonical names (what process_env_var produces: one_spelling_per_variable), the ten "
                "operators, literals free of backslash/CR/LF/NUL/surrogates and not containing both quote characters; "
